@@ -179,8 +179,12 @@ func (g *gate) onHash(ks []fk.Key) {
 	g.mu.Unlock()
 	select {
 	case <-g.allIn:
-	case <-time.After(20 * time.Second):
-		panic("C14 runner: not all batch goroutines reached ProposalsHash")
+	case <-time.After(5 * time.Second):
+		// a non-empty batch got no goroutine (or no hash): go on with those that came - the sessions observed
+		// are then fewer than the judge demands
+		g.mu.Lock()
+		g.note += "not all batch goroutines reached ProposalsHash; "
+		g.mu.Unlock()
 	}
 	select {
 	case <-g.turn:
@@ -524,6 +528,9 @@ func gen(r *vgen.Rng, tier string) []Case {
 	// 7. deliveries that are not in ascending nonce order / come from several source domains, and histories of
 	// 2..6 such deliveries on ONE Executor object (history.go).  Their own stream: the cases above stay what they were
 	out = append(out, genHistories(vgen.NewRng(r.U64()), tier)...)
+	// 8. degenerate gas configurations (transfer gas cost 0 / 1, limits absent / 0 / 1, caps 0..3) through every
+	// Execute-level mode (degenerate.go).  Own stream again
+	out = append(out, genDegenerate(vgen.NewRng(r.U64()), tier)...)
 	return out
 }
 
